@@ -84,7 +84,7 @@ PROPS.update({
     },
     "C06": {
         "parts": [ktmc("C06")],
-        "rule": "every list of 0..=3 (thorough 4) records from 8 variants (2 header shapes x base lengths 0,1,2,5) "
+        "rule": "every list of 0..=3 (thorough 4) records from 11 variants (3 header shapes incl. an empty header line x base lengths 0,1,2,5; the record with neither header text nor bases is left out) "
                 "serialised 9 ways (FASTA one-line / wrapped 1,2,3 / CRLF / no final newline; FASTQ / CRLF / no final "
                 "newline) in plain, single-member gzip (compressed and stored), gzip with a member boundary at every "
                 "record boundary, with an empty member, and at every byte offset of the first 40 bytes; long records "
